@@ -1055,6 +1055,9 @@ func runAlloc(t *testing.T, prop string) {
 					// one failing status write: what a service released before the failed write must still reach the services
 					// waiting for it (the retry no longer sees that anything was released)
 					faultMenu, maxFault = true, 1
+					if u.Name != "release" {
+						udepth = depth - 1 // the fault menu multiplies the big graphs (at depth 4 beyond the machine's memory)
+					}
 				}
 			}
 			if prop == "C06" {
